@@ -201,3 +201,68 @@ func VerifH17b() {
 	c.offers()
 	nd.Reach("H17b.end")
 }
+
+// VerifH17c: a directory that regains room twice. Directory A fills up and is rotated out; a
+// deletion in it puts it back; it is written to, fills up and is rotated out again; a second
+// deletion in it must put it back again (whatever the registry remembers about the first time).
+func VerifH17c() {
+	nd.SetPreemptionBound(0)
+	concreteCounter = true
+	w := newWorld(stdConfig("r1"), []string{"a", "b", "c", "d"})
+	isActive := func(dir string) bool {
+		active, _ := w.c.DirRepo().VerifActive()
+		for _, d := range active {
+			if d.Path() == dir {
+				return true
+			}
+		}
+		return false
+	}
+	full := ""
+	verifenv.ExtraEntries = func(dir string) uint64 {
+		if dir == full {
+			return 100
+		}
+		return 0
+	}
+	nd.Assert(w.doSet(0, "a", w.freshVal(), 0) == nil, "H17c.write")
+	kids := verifenv.FS.Children("r1")
+	nd.Assert(len(kids) == 1, "H17c.first-directory")
+	if len(kids) != 1 {
+		return
+	}
+	A := "r1/" + kids[0]
+	// A fills up: the next write rotates it out
+	full = A
+	nd.Assert(w.doSet(0, "b", w.freshVal(), 0) == nil, "H17c.rotating-write")
+	nd.Assert(!isActive(A), "H17c.full-directory-rotated-out")
+	// A regains room; the version in it is superseded and collected: A is back
+	full = ""
+	nd.Assert(w.doSet(0, "a", w.freshVal(), 0) == nil, "H17c.overwrite")
+	w.gc("H17c")
+	verifenv.RunJobs()
+	nd.Assert(isActive(A), "H17c.directory-with-room-again-is-offered-again")
+	// a write lands in A (only those orders are followed), A fills up and is rotated out again
+	nd.Assert(w.doSet(0, "d", w.freshVal(), 0) == nil, "H17c.write-d")
+	inA := false
+	for _, f := range verifenv.FS.Files("r1") {
+		if path.Dir(f) == A {
+			inA = true
+		}
+	}
+	if !inA {
+		nd.Assume(false)
+	}
+	full = A
+	nd.Assert(w.doSet(0, "c", w.freshVal(), 0) == nil, "H17c.second-rotating-write")
+	nd.Assert(!isActive(A), "H17c.full-directory-rotated-out-again")
+	// the second deletion in A
+	full = ""
+	nd.Assert(w.doSet(0, "d", w.freshVal(), 0) == nil, "H17c.overwrite-d")
+	w.gc("H17c")
+	verifenv.RunJobs()
+	nd.Assert(isActive(A), "H17c.directory-with-room-again-is-offered-again-the-second-time")
+	verifenv.ExtraEntries = nil
+	w.checkReads("H17c.reads")
+	nd.Reach("H17c.end")
+}
